@@ -8,6 +8,7 @@ import hashlib
 import json
 import math
 import os
+import shutil
 import sys
 import random
 
@@ -358,6 +359,36 @@ def run(tier, seed):
                 rep.violation("C04:python-equal-value-served-from-other-key", "after a call with %r, a call with %r did not execute the body (%d executions): it was served another call's result" % (v1, v2, outs[1][1]), meta)
             elif outs[1][2] != canon_repr(v2):
                 rep.violation("C04:body-got-other-values", "called with %r (after a call with %r) the body received %s" % (v2, v1, outs[1][2]), meta)
+        # the same on a filesystem store with a memory cache that is re-opened between the calls (the first call's record is
+        # re-read from disk before the twin value is used)
+        from . import runner_cases as _R
+        npairs["python_equal_reopened"] = 0
+        for ti, (v1, v2) in enumerate(twins):
+            f = sigmod.FUNCS["s1"]
+            tag = "tw%d" % ti
+            try:
+                fnlib.set_env(m, scratch, {"sig": (_R.make_storage("fs_cache", scratch, tag), None)})
+                f(a=v1)
+                fnlib.set_env(m, scratch, {"sig": (_R.make_storage("fs_cache", scratch, tag), None)})
+                tr.clear()
+                f(a=v1)
+                again = len([e for e in tr.events if e[0] == "body"])
+                tr.clear()
+                f(a=v2)
+                bodies = [e for e in tr.events if e[0] == "body"]
+            except Exception as e:
+                rep.violation("C04:reopened-store-raised", "%s: %s" % (type(e).__name__, str(e)[:150]), {"first": repr(v1), "second": repr(v2)})
+                continue
+            npairs["python_equal_reopened"] += 1
+            meta = {"fn": "s1", "first": repr(v1), "second": repr(v2), "store": "filesystem + memory cache, re-opened after the first call"}
+            if again != 0:
+                rep.violation("C04:equivalent-presentation-not-a-hit", "the same call after re-opening the store executed the body %d times" % again, meta)
+            if len(bodies) != 1:
+                rep.violation("C04:python-equal-value-served-from-other-key", "after a call with %r was re-read from the store, a call with %r did not execute the body (%d executions)" % (v1, v2, len(bodies)), meta)
+            elif canon_repr(bodies[0][2].get("a")) != canon_repr(v2):
+                rep.violation("C04:body-got-other-values", "called with %r the body received %s" % (v2, canon_repr(bodies[0][2].get("a"))), meta)
+            shutil.rmtree(os.path.join(scratch, "store-" + tag), ignore_errors=True)
+        fnlib.set_env(m, scratch, {"sig": (MemoryStorageBackend(), None), "fc": (MemoryStorageBackend(), None)})
         # a function redefined (same module, same name) with its parameters in another order: positional arguments and
         # positional partial arguments bind to the parameters of the definition that is current
         from . import c12 as _c12
